@@ -2,7 +2,7 @@
 From Coq Require Import List Bool ZArith Lia.
 Import ListNotations.
 From Rosed Require Import Base.Res Base.ListX Base.Utf8 Base.Str Gem.Segment Gem.GString Model.Table Model.Options Model.Editor Model.Ops
-     Check.Paras Proofs.C11P.
+     Check.Paras Proofs.C11P Model.Tb Model.Manip Proofs.C11Q.
 Open Scope Z_scope.
 
 (* A per-paragraph callback returning its piece unchanged reproduces the Editor exactly,
@@ -56,3 +56,30 @@ Theorem C11_callback_sequence : forall (C : Classifier) (U : Upper) (op : gpara_
     Ok (with_text e (join (o_parasep o) transformed)).
 Proof. intros C U. exact apply_gparagraphs_spec. Qed.
 Print Assumptions C11_callback_sequence.
+
+(* Paragraph mode as a homomorphism. no_affix psep lsep: the paragraph separator starts and ends
+   with the line separator (so its visible prefix/suffix parts are empty), as for "\n\n" with
+   "\n". Then Wrap and Justify with PreserveParagraphs are the paragraph-separator join of the
+   operation applied to each piece on its own; every paragraph separator stays in place. *)
+Theorem C11_wrap_paragraphs : forall (C : Classifier) (U : Upper) width opts e,
+  let o := with_defaults opts in
+  o_preserve o = true -> no_affix (o_parasep o) (o_linesep o) ->
+  let ps := pieces (e_text e) (o_parasep o) (o_linesep o) in
+  wrap_opts width opts e =
+    Ok (with_text e (join (o_parasep o) (map (fun b => encode (wrap_piece (Z.max width 2) (decode (o_linesep o)) (decode b))) ps))).
+Proof. intros C U. exact wrap_opts_paragraphs. Qed.
+Print Assumptions C11_wrap_paragraphs.
+
+Theorem C11_justify_paragraphs : forall (C : Classifier) (U : Upper) width opts e,
+  let o := with_defaults opts in
+  o_preserve o = true -> no_affix (o_parasep o) (o_linesep o) ->
+  let ps := pieces (e_text e) (o_parasep o) (o_linesep o) in
+  justify_opts width opts e =
+    Ok (with_text e (join (o_parasep o) (map (fun b => encode (justify_piece (o_justlast o) width (decode (o_linesep o)) (decode b))) ps))).
+Proof. intros C U. exact justify_opts_paragraphs. Qed.
+Print Assumptions C11_justify_paragraphs.
+
+(* the condition holds for the default separators and for CR LF pairs *)
+Theorem C11_no_affix_default : forall (C : Classifier), no_affix [10; 10] [10] /\ no_affix [13; 10; 13; 10] [13; 10] /\ no_affix [10; 10; 10] [10].
+Proof. intros C. exact no_affix_default. Qed.
+Print Assumptions C11_no_affix_default.
